@@ -1099,6 +1099,25 @@ def c16(tier, rng, rep, only=None):
 
 # ------------------------------------------------------------------------------------- C11
 
+def value_json(v, d):
+    """JSON text of a value written as an S-expression ((i n) / (f bits) / (s cp ..) / (l n ..))"""
+    import json as js
+    body = v[1:-1].split()
+    tag, rest = body[0], body[1:]
+    if tag == "i":
+        return rest[0]
+    if tag == "f":
+        return None     # serde_json's default float parser is not exactly round-tripping: C10 compares with the inner value instead
+    if tag == "s":
+        try:
+            return js.dumps("".join(chr(int(x)) for x in rest), ensure_ascii=False)
+        except ValueError:
+            return None
+    if tag == "l":
+        return "[" + ",".join(rest) + "]"
+    return None
+
+
 def c11_eligible(d):
     """built-in sanitizers / validators only, or custom ones that are idempotent"""
     info = runner.DeclInfo(d)
@@ -1228,12 +1247,17 @@ def c11(tier, rng, rep, only=None):
 
         def ops_de(g_, d, r):
             docs = json_docs(d, r, tier)
-            g_.add_ops(d, [("de_json", val_sexp(("s", x))) for x in docs])
+            ins_ = guardcorpus.inputs_for(d, r, tier)
+            if len(ins_) > 60:
+                ins_ = ins_[:: max(1, len(ins_) // 60)]
+            # values obtained through Deserialize, and through the constructor of the same (serde-deriving) type
+            g_.add_ops(d, [("de_json", val_sexp(("s", x))) for x in docs] + [(guardcorpus.ctor_op(d), val_sexp(v)) for v in ins_])
         g3 = make_guard_run(tier, rng, decls=sdecls, ops_for=ops_de, spec=False, wsname="serde")
         run_guard(g3, rep, rng)
         g4 = flows.GuardRun(g3.ws.name, g3.decls)
         g4.ws = g3.ws
         g4.live = g3.live
+        want_de = {}
         for d in g3.decls:
             if d.id not in g3.live:
                 continue
@@ -1244,6 +1268,12 @@ def c11(tier, rng, rep, only=None):
                 if c.impl and c.impl.startswith("ok ") and c.impl not in seen:
                     seen.add(c.impl)
                     ops.append((guardcorpus.ctor_op(d), c.impl[3:]))
+                    # .. and back in through Deserialize of the value's own JSON text
+                    doc = value_json(c.impl[3:], d)
+                    if doc is not None:
+                        a_ = val_sexp(("s", doc))
+                        ops.append(("de_json", a_))
+                        want_de[(d.id, a_)] = c.impl
             g4.add_ops(d, ops)
         g4.run_impl()
         g4.run_model()
@@ -1252,6 +1282,11 @@ def c11(tier, rng, rep, only=None):
                 continue
             n3 += 1
             kinds["deserialized->" + c.op] = kinds.get("deserialized->" + c.op, 0) + 1
+            if c.op == "de_json":
+                if c.impl != want_de.get((c.decl.id, c.arg)):
+                    rep.violation("value %s obtained from %s by Deserialize does not come back through Deserialize of its own JSON text %s: %s"
+                                  % (want_de.get((c.decl.id, c.arg), "?")[3:], c.decl.id, c.arg, c.impl), case_payload(c, g4))
+                continue
             if c.impl != "ok " + c.arg:
                 rep.violation("value %s obtained from %s by Deserialize is not reproduced by %s: %s" % (c.arg, c.decl.id, c.op, c.impl), case_payload(c, g4))
     # values obtained through Arbitrary (Arbitrary corpus): they too must re-enter unchanged
